@@ -3,6 +3,8 @@ package main
 import (
 	"encoding/json"
 	"errors"
+	"fmt"
+	"io"
 	"math"
 	"strconv"
 	"strings"
@@ -49,9 +51,19 @@ func attached(tag int) interface{} {
 		return 1e21
 	case 17:
 		return panicStringer{}
+	case 18: // a typed nil pointer whose Error() would dereference it: encodes as null, must never be called
+		return (*derefErr)(nil)
+	case 19: // an error value: encodes as {} like any struct without exported fields
+		return errors.New("attached error")
+	case 20:
+		return &derefErr{msg: "m"}
 	}
 	return nil
 }
+
+type derefErr struct{ msg string }
+
+func (e *derefErr) Error() string { return e.msg }
 
 func doNerr(id string, x *sexp) (out string) {
 	defer func() {
@@ -63,7 +75,16 @@ func doNerr(id string, x *sexp) (out string) {
 	if !ok || !x.list[3].isL || !x.list[4].isL {
 		return id + " BADCASE"
 	}
-	cause := errors.New(causeText)
+	var cause error = errors.New(causeText)
+	// a cause that itself wraps another error (its text is the same): Original() stops at the cause, it does not unwrap it
+	if strings.HasSuffix(causeText, ": unexpected EOF") {
+		cause = fmt.Errorf("%s: %w", strings.TrimSuffix(causeText, ": unexpected EOF"), io.ErrUnexpectedEOF)
+	} else if strings.HasSuffix(causeText, ": invalid syntax") {
+		cause = &strconv.NumError{Func: "ParseInt", Num: "x", Err: strconv.ErrSyntax}
+		if cause.Error() != causeText {
+			cause = errors.New(causeText)
+		}
+	}
 	var layers []*parser.NestedError
 	var cur error = cause
 	for _, m := range x.list[3].list {
